@@ -314,8 +314,8 @@ def doc_is_wrapper_call(n):
 @lemma(props=["C17"], types=dict(node=TSNode), name="wrapper-call-as-documented")
 def wrapper_call_as_documented(node):
     """Expected to fail (known finding C17-wrapper-call-shapes): method-call and turbofish forms are not recognised."""
-    if node is None:
-        return True
+    if node is None or len(node.children) != 1 or len(node.children[0].children) > 1:
+        return True     # small trees are enough to exhibit the deviation (keeps the refutation a finite unfolding)
     return call(F + "_is_wrapper_call", node) == doc_is_wrapper_call(node)
 
 
